@@ -535,6 +535,20 @@ class ExtMixin(object):
         return self.x_set(args, kwargs, node, env)
 
     def x_map(self, args, kwargs, node, env):
+        if len(args) > 2:
+            # map(f, xs, repeat(c), ...): the constants are extra arguments of every call
+            its = [a for a in args[1:] if not (isinstance(a, PyObjV) and isinstance(a.obj, _Repeat))]
+            if len(its) != 1 or kwargs:
+                self.err(node, "map over several iterables")
+            slots = [("it" if a is its[0] else a.obj.value) for a in args[1:]]
+            f0 = args[0]
+            inner = self
+
+            class _Applied(object):
+                def m___call__(self_, I, a, k):
+                    _ = k
+                    return inner.call(f0, [a[0] if sl == "it" else sl for sl in slots], {}, node, env)
+            return self.x_map([PyObjV(_Applied()).as_callable(), its[0]], {}, node, env)
         if len(args) != 2:
             self.err(node, "map over several iterables")
         fn, seq = args[0], self.as_iterable(args[1], node)
@@ -820,6 +834,21 @@ class ExtMixin(object):
 
     x_StringIO = x_io_StringIO
 
+    def x_typing_NamedTuple(self, args, kwargs, node, env):
+        """typing.NamedTuple('Name', [(field, type), ...])"""
+        if kwargs or len(args) != 2 or not isinstance(args[0], Const):
+            self.err(node, "typing.NamedTuple arguments")
+        spec = self.as_iterable(args[1], node)
+        names = []
+        for it in getattr(spec, "items", []):
+            pair = self.as_iterable(it, node)
+            if not (isinstance(pair, ListV) and len(pair.items) == 2 and isinstance(pair.items[0], Const)):
+                self.err(node, "typing.NamedTuple field specification")
+            names.append(pair.items[0].v)
+        if not names:
+            self.err(node, "typing.NamedTuple without literal fields")
+        return NTClassV(args[0].v, names)
+
     def x_collections_namedtuple(self, args, kwargs, node, env):
         name = args[0]
         fields = args[1]
@@ -1048,11 +1077,36 @@ class ExtMixin(object):
             return v.cls
         self.err(node, "type(%r)" % (v,))
 
+    # -- contextlib
+    def x_contextlib_closing(self, args, kwargs, node, env):
+        if kwargs or len(args) != 1:
+            self.err(node, "contextlib.closing arguments")
+        return PyObjV(_Closing(args[0]))
+
+    def x_contextlib_ExitStack(self, args, kwargs, node, env):
+        if args or kwargs:
+            self.err(node, "contextlib.ExitStack arguments")
+        return PyObjV(_ExitStack())
+
+    def x_contextlib_contextmanager(self, args, kwargs, node, env):
+        if kwargs or len(args) != 1 or not isinstance(args[0], FuncV):
+            self.err(node, "contextlib.contextmanager applied to %r" % (args,))
+        return PyObjV(_CtxFactory(args[0]))
+
     def x_functools_wraps(self, args, kwargs, node, env):
         """functools.wraps(f): a decorator that copies f's name and documentation onto the wrapper and returns the wrapper"""
         if kwargs or len(args) != 1:
             self.err(node, "functools.wraps arguments")
         return PyObjV(_Wraps(args[0]))
+
+    def x_property(self, args, kwargs, node, env):
+        from .symeval_ops import PropertyV
+        fget = args[0] if args else kwargs.get("fget")
+        fset = args[1] if len(args) > 1 else kwargs.get("fset")
+        if len(args) > 2 or set(kwargs) - {"fget", "fset", "doc"} or "doc" in kwargs and False:
+            self.err(node, "property() arguments")
+        _ = kwargs
+        return PropertyV(fget if not (isinstance(fget, Const) and fget.v is None) else None, fset)
 
     def x_staticmethod(self, args, kwargs, node, env):
         return StaticV(args[0])
@@ -1075,8 +1129,42 @@ class ExtMixin(object):
             self.err(node, "operator.itemgetter with several items")
         return PyObjV(AttrGetter("item", args[0]))
 
+    def _operator_binop(opcls):
+        def f(self, args, kwargs, node, env):
+            if kwargs or len(args) != 2:
+                self.err(node, "operator function arguments")
+            return self.binop(opcls(), args[0], args[1], node)
+        return f
+    x_operator_mul = _operator_binop(ast.Mult)
+    x_operator_add = _operator_binop(ast.Add)
+    x_operator_sub = _operator_binop(ast.Sub)
+    x_operator_truediv = _operator_binop(ast.Div)
+    x_operator_floordiv = _operator_binop(ast.FloorDiv)
+    x_operator_mod = _operator_binop(ast.Mod)
+    x_operator_pow = _operator_binop(ast.Pow)
+    del _operator_binop
+
+    def x_operator_neg(self, args, kwargs, node, env):
+        if kwargs or len(args) != 1:
+            self.err(node, "operator.neg arguments")
+        return Num(-self.num(args[0], node), getattr(args[0], "inexact", False))
+
+    def x_itertools_repeat(self, args, kwargs, node, env):
+        if kwargs or len(args) != 1:
+            self.err(node, "itertools.repeat with a count")
+        return PyObjV(_Repeat(args[0]))
+
     def x_itertools_product(self, args, kwargs, node, env):
         import itertools as _it
+        rep = kwargs.get("repeat")
+        if set(kwargs) - {"repeat"}:
+            self.err(node, "itertools.product keyword arguments")
+        if rep is not None:
+            c = rep.const() if isinstance(rep, Num) else None
+            if c is None or c.denominator != 1 or c < 1:
+                self.err(node, "itertools.product(repeat=%r)" % (rep,))
+            args = list(args) * int(c)
+            _ = kwargs
         seqs = [self.as_iterable(a, node) for a in args]
         if not all(isinstance(q, ListV) and not getattr(q, "tail", None) for q in seqs):
             self.err(node, "itertools.product of symbolic sequences (outside a for statement)")
@@ -1503,6 +1591,111 @@ class _Memo(object):
             raise AnalysisError("cache_clear arguments")
         self.memo.clear()
         return NONE
+
+
+class _Repeat(object):
+    """itertools.repeat(x): x for ever"""
+    def __init__(self, value):
+        self.value = value
+
+
+class _Closing(object):
+    """contextlib.closing(thing): the with-statement binds thing itself and calls thing.close() at the end
+    (closing a StringIO / file afterwards does not change what was written)"""
+    def __init__(self, thing):
+        self.thing = thing
+
+    def enter(self, I):
+        return self.thing
+
+    def exit(self, I):
+        if not isinstance(self.thing, BufV):
+            I.call(I.getattr(self.thing, "close", None), [], {}, None)
+
+
+class _ExitStack(object):
+    def __init__(self):
+        self.entered = []
+
+    def enter(self, I):
+        return PyObjV(self)
+
+    def exit(self, I):
+        for o in reversed(self.entered):
+            o.exit(I)
+        self.entered = []
+
+    def m_enter_context(self, I, args, kwargs):
+        if kwargs or len(args) != 1:
+            raise AnalysisError("ExitStack.enter_context arguments")
+        cm = args[0]
+        if isinstance(cm, BufV):
+            return cm
+        if isinstance(cm, PyObjV) and hasattr(cm.obj, "enter") and not hasattr(cm.obj, "run_with"):
+            self.entered.append(cm.obj)
+            return cm.obj.enter(I)
+        raise AnalysisError("ExitStack.enter_context(%r)" % (cm,))
+
+    def m_close(self, I, args, kwargs):
+        if args or kwargs:
+            raise AnalysisError("ExitStack.close arguments")
+        self.exit(I)
+        return NONE
+
+
+class _CtxFactory(object):
+    """a generator function decorated with contextlib.contextmanager"""
+    def __init__(self, fn):
+        self.fn = fn
+
+    def m___call__(self, I, args, kwargs):
+        return PyObjV(_CtxInstance(self.fn, list(args), dict(kwargs)))
+
+
+class _CtxInstance(object):
+    """with f(args) as v: BODY  ==  f's body with its single 'yield X' standing for 'v = X; BODY' (an exception leaving BODY
+    is raised at the yield, inside whatever try block of f surrounds it)"""
+    def __init__(self, fn, args, kwargs):
+        self.fn, self.args, self.kwargs = fn, args, kwargs
+
+    def run_with(self, I, body):
+        fi = self.fn.fi
+        yields = [n for n in ast.walk(fi.node) if isinstance(n, (ast.Yield, ast.YieldFrom))]
+        if len(yields) != 1 or isinstance(yields[0], ast.YieldFrom):
+            raise AnalysisError("context manager %s does not have exactly one yield" % fi.fq)
+        env = I.bind_params(self.fn, self.args, dict(self.kwargs), None)
+        state = {"n": 0}
+
+        def at_yield(val):
+            state["n"] += 1
+            try:
+                body(val)
+            except Exception as e:
+                # return / break / continue leaving the with-body: the manager is left normally (its code after the yield
+                # runs), then control goes where the statement sent it
+                if type(e).__name__ in ("ReturnSignal", "BreakSignal", "ContinueSignal"):
+                    state["leave"] = e
+                else:
+                    raise
+        stack = I.__dict__.setdefault("ctx_yield", [])
+        stack.append((yields[0], at_yield))
+        I.stack.append(env)
+        I.depth += 1
+        try:
+            try:
+                I.exec_block([st for st in fi.node.body
+                              if not (isinstance(st, ast.Expr) and isinstance(st.value, ast.Constant))], env)
+            except Exception as e:
+                if type(e).__name__ != "ReturnSignal":
+                    raise
+        finally:
+            I.depth -= 1
+            I.stack.pop()
+            stack.pop()
+        if state["n"] != 1:
+            raise AnalysisError("context manager %s yielded %d times" % (fi.fq, state["n"]))
+        if "leave" in state:
+            raise state["leave"]
 
 
 class _Wraps(object):
